@@ -17,7 +17,7 @@ META = {
     "n in {3,6,12}, noise-free and noisy, inside the C05 radii); transforms T = finite alphabet (identity, generic, translation 1e3-scale and 1e6-scale, 180 deg, 179.9 deg about a generic axis, 120 deg Hurwitz, "
     "w<0; SE(2): pi/2, pi-1e-3, -2, 3.1; R^n: translations). For every (graph, T) the trajectory x_{k+1} = GN(x_k), k = 0..5, is followed and at EVERY state: edge errors and chi2 of L_T(x_k) "
     "equal those of x_k, and GN(L_T(x_k)) = L_T(GN(x_k)); plus, at every state, the same frame change applied IN PLACE to an already evaluated graph (history), plus the direct 5-step comparison on the SLAM families. non-trivial = T is not the identity and the step moves a vertex",
-    "assumptions": ["finite transform alphabet", "L_T is computed with the reference geometry", "tolerance 1e-9 x (1 + |T| + |x| + |dx|) x max(1, cond/1e3); states whose reduced Hessian has cond > 1e6 end the trajectory (counted)"],
+    "assumptions": ["finite transform alphabet", "L_T is computed with the reference geometry", "tolerance 1e-11 x (1 + |T| + |x| + |dx|) x max(1, cond/1e3); states whose reduced Hessian has cond > 1e6 end the trajectory (counted)"],
     "required_classes": ["T:180deg", "T:huge_translation", "T:large_translation", "T:w_negative", "T:near_180", "kind:SE2", "kind:SE3", "kind:R2", "kind:R3", "landmark_offset", "slam_family", "shape_family", "state_depth_5"],
     "bounds": {"quick": "shape family m<=2 (single vertex order), SLAM families n in {3,6}; 7 transforms; depth 5", "thorough": "SLAM families n in {3,6,12,24} x 3 noise patterns; shape family m<=2 x 2 vertex orders; depth 5"},
 }
